@@ -23,6 +23,15 @@ let inj c =
   match next c with
   | ":ei" -> IEintr | ":er" -> IErr | ":re" -> IReal
   | t -> raise (Bad ("injection " ^ t))
+let sibling c =
+  match next c with
+  | ":sx" -> let late = bool_tok (next c) in SibExit (late, n_tok (next c))
+  | ":sk" -> let late = bool_tok (next c) in SibKill (late, n_tok (next c))
+  | t -> raise (Bad ("sibling " ^ t))
+let chld_tok t =
+  match int_tok t with
+  | 0 -> CDefault | 1 -> CIgnore | 2 -> CNoCldWait | 3 -> CNoCldWaitH | 4 -> CReapFirst | 5 -> CHandler
+  | _ -> raise (Bad ("SIGCHLD configuration " ^ t))
 let test c =
   match next c with
   | ":plain" -> TPlain (bool_tok (next c))
@@ -31,6 +40,13 @@ let test c =
                let f = counted c act in
                let i = counted c inj in
                TReal ({ p_pre = a; p_setup = b; p_body = d; p_teardown = e; p_post = f }, i)
+  (* :env <SIGCHLD configuration 0..5> <n> sibling*n <genuine EINTRs> then the fields of :real *)
+  | ":env" -> let ch = chld_tok (next c) in let sibs = counted c sibling in let ne = nat_tok (next c) in
+               let a = counted c act in let b = counted c act in let d = counted c act in let e = counted c act in
+               let f = counted c act in
+               let i = counted c inj in
+               TEnv ({ e_chld = ch; e_sibs = sibs; e_eintr = ne },
+                     { p_pre = a; p_setup = b; p_body = d; p_teardown = e; p_post = f }, i)
   | t -> raise (Bad ("test " ^ t))
 (* a registered test: optional marker :ign in front of the test *)
 let tcase c =
